@@ -493,6 +493,14 @@ func TestC04Sentences(t *testing.T) {
 	rapid.Check(t, func(t *rapid.T) {
 		syll := rapid.Bool().Draw(t, "syll")
 		items := rapid.SliceOfN(genSItem(syll), 1, maxItems).Draw(t, "items")
+		if coin(t, "long-piece", 5) {
+			// several KB: crosses the lexer's 4 KiB read buffer
+			n := rapid.IntRange(120, 400).Draw(t, "long-n")
+			for len(items) < n {
+				items = append(items, items[len(items)%maxInt(1, len(items)/2+1)])
+			}
+			r.Class("long-sentence(>120 items)", 1)
+		}
 		st := &rapidStyle{t: t, trivia: coin(t, "trivia", 70), us: true, zeros: true, uni: true, nEdits: map[string]int{}}
 		text := Render(items, st)
 		c := C04Case{Text: text}
@@ -650,4 +658,11 @@ func FuzzC04Parse(f *testing.F) {
 			fuzzFail(t, "C04", "c04", C04Case{Text: s}, v)
 		}
 	})
+}
+
+func maxInt(a, b int) int {
+	if a > b {
+		return a
+	}
+	return b
 }
